@@ -173,7 +173,11 @@ func c14Render(s *c14Schema, lay c14Layout, r *Rand) string {
 
 var c14TypeWords = []string{"Peer", "Chat", "User", "Photo", "Message", "Dialog", "Update", "Geo", "File", "Sticker",
 	"Contact", "Theme", "Wallet", "Poll", "Game", "Invoice", "Folder", "Page", "Stats", "Report", "Filter", "Draft", "Call",
-	"Key", "Proxy", "Lang", "Emoji", "Banner", "Channel", "Video"}
+	"Key", "Proxy", "Lang", "Emoji", "Banner", "Channel", "Video",
+	// names which begin like a builtin type or an excluded definition (intervalEmpty, longPollFull, trueColorMin …):
+	// only the exact words are special
+	"Interval", "Integer", "LongPoll", "StringList", "BytesBlob", "DoubleRange", "TrueColor", "BoolTrueish",
+	"InvokeAfterMsgLog", "InitConnectionInfo"}
 var c14Namespaces = []string{"", "", "", "storage.", "messages.", "auth.", "help.", "upload."}
 var c14CtorSuffix = []string{"Empty", "Self", "Full", "Small", "Forbidden", "Min", "Old", "Big", "Deleted", "Layer72", "V2", "Cached"}
 var c14ParamWords = []string{"id", "user_id", "access_hash", "title", "url", "api_id", "p2p", "msg_id", "date", "count", "offset",
@@ -376,7 +380,8 @@ func c14RandSchema(r *Rand, o c14GenOpts) (*c14Schema, []*c14TypeInfo) {
 	nFuncs := r.Intn(o.size + 1)
 	for i := 0; i < nFuncs; i++ {
 		ns := c14Namespaces[r.Intn(len(c14Namespaces))]
-		verb := []string{"get", "set", "send", "delete", "check", "resolve", "update", "search"}[r.Intn(8)]
+		verb := []string{"get", "set", "send", "delete", "check", "resolve", "update", "search",
+			"int", "long", "string", "bytes", "double", "true", "vector", "invokeWithLayer"}[r.Intn(16)]
 		name := fmt.Sprintf("%s%s%s", ns, verb, c14TypeWords[perm[(i*7+3)%len(perm)]])
 		if i >= 8 {
 			name += fmt.Sprintf("%d", i)
